@@ -1,0 +1,185 @@
+//go:build verif
+
+// Contracts for the 6-over-3 extension tower of this curve (comment-only; installed by /verif/gcv gen-contracts).
+// Layer "ring T": values of type T are elements of an abstract commutative ring and the methods of T are
+// interpreted by the ring operation their own (lower-layer) contract states.
+//   E3 = Fp[u]/(u^3 - nr)   with nr the constant that fp.Element.MulByNonResidue multiplies by (proved to be 2
+//                           in the fp package: contract of Element.MulByNonResidue below the tower)
+//   E6 = E3[v]/(v^2 - u)
+// qmul(nr, a, b) is the schoolbook product of coordinate vectors reduced by X^k = nr, computed by the tool.
+
+package fptower
+
+// ---------------- E3 over Fp ----------------
+
+//@ func E3.Add
+//@ layer ring fp.Element
+//@ ensures[value] vec(z) == vadd(old(vec(x)), old(vec(y)))
+//@ ensures[result] result == z
+//@ modifies z
+//@ end
+
+//@ func E3.Sub
+//@ layer ring fp.Element
+//@ ensures[value] vec(z) == vsub(old(vec(x)), old(vec(y)))
+//@ ensures[result] result == z
+//@ modifies z
+//@ end
+
+//@ func E3.Double
+//@ layer ring fp.Element
+//@ ensures[value] vec(z) == vscale(2, old(vec(x)))
+//@ ensures[result] result == z
+//@ modifies z
+//@ end
+
+//@ func E3.Neg
+//@ layer ring fp.Element
+//@ ensures[value] vec(z) == vscale(-1, old(vec(x)))
+//@ ensures[result] result == z
+//@ modifies z
+//@ end
+
+//@ func E3.Mul
+//@ layer ring fp.Element
+//@ ensures[value] vec(z) == qmul(NR_Element, old(vec(x)), old(vec(y)))
+//@ ensures[result] result == z
+//@ modifies z
+//@ end
+
+//@ func E3.Square
+//@ layer ring fp.Element
+//@ ensures[value] vec(z) == qsq(NR_Element, old(vec(x)))
+//@ ensures[result] result == z
+//@ modifies z
+//@ end
+
+//@ func E3.MulByNonResidue
+//@ layer ring fp.Element
+//@ ensures[value] vec(z) == qmul(NR_Element, svec(3, 1, 1), old(vec(x)))
+//@ ensures[result] result == z
+//@ modifies z
+//@ end
+
+//@ func E3.MulByElement
+//@ layer ring fp.Element
+//@ ensures[value] vec(z) == vscale(old(*y), old(vec(x)))
+//@ ensures[result] result == z
+//@ modifies z
+//@ end
+
+//@ func E3.MulBy01
+//@ layer ring fp.Element
+//@ ensures[value] vec(z) == qmul(NR_Element, old(vec(z)), svec(3, 0, old(*c0), 1, old(*c1)))
+//@ ensures[result] result == z
+//@ modifies z
+//@ end
+
+//@ func E3.MulBy1
+//@ layer ring fp.Element
+//@ ensures[value] vec(z) == qmul(NR_Element, old(vec(z)), svec(3, 1, old(*c1)))
+//@ ensures[result] result == z
+//@ modifies z
+//@ end
+
+//@ func E3.MulBy12
+//@ layer ring fp.Element
+//@ ensures[value] vec(z) == qmul(NR_Element, old(vec(z)), svec(3, 1, old(*b1), 2, old(*b2)))
+//@ ensures[result] result == z
+//@ modifies z
+//@ end
+
+//@ func E3.Inverse
+//@ layer ring fp.Element
+//@ option distribute
+//@ ensures[inverse] qmul(NR_Element, vec(z), old(vec(x))) == svec(3, 0, qnorm(NR_Element, old(vec(x))) * inv(qnorm(NR_Element, old(vec(x)))))
+//@ ensures[result] result == z
+//@ modifies z
+//@ end
+
+// ---------------- E6 over E3 ----------------
+
+//@ func E6.Add
+//@ layer ring E3
+//@ ensures[value] vec(z) == vadd(old(vec(x)), old(vec(y)))
+//@ ensures[result] result == z
+//@ modifies z
+//@ end
+
+//@ func E6.Sub
+//@ layer ring E3
+//@ ensures[value] vec(z) == vsub(old(vec(x)), old(vec(y)))
+//@ ensures[result] result == z
+//@ modifies z
+//@ end
+
+//@ func E6.Double
+//@ layer ring E3
+//@ ensures[value] vec(z) == vscale(2, old(vec(x)))
+//@ ensures[result] result == z
+//@ modifies z
+//@ end
+
+//@ func E6.Mul
+//@ layer ring E3
+//@ ensures[value] vec(z) == qmul(NR_E3, old(vec(x)), old(vec(y)))
+//@ ensures[result] result == z
+//@ modifies z
+//@ end
+
+//@ func E6.Square
+//@ layer ring E3
+//@ ensures[value] vec(z) == qsq(NR_E3, old(vec(x)))
+//@ ensures[result] result == z
+//@ modifies z
+//@ end
+
+//@ func E6.Conjugate
+//@ layer ring E3
+//@ ensures[value] vec(z) == vconj2(old(vec(x)))
+//@ ensures[result] result == z
+//@ modifies z
+//@ end
+
+//@ func E6.Inverse
+//@ layer ring E3
+//@ option distribute
+//@ ensures[inverse] qmul(NR_E3, vec(z), old(vec(x))) == svec(2, 0, qnorm(NR_E3, old(vec(x))) * inv(qnorm(NR_E3, old(vec(x)))))
+//@ ensures[result] result == z
+//@ modifies z
+//@ end
+
+// ---------------- sparse products of the pairing (coordinates in tower order B0.A0, B0.A1, B0.A2, B1.A0, B1.A1, B1.A2) ----------------
+
+//@ func E6.MulBy014
+//@ layer ring fp.Element
+//@ ensures[value] tvec(z) == t12mul(NR_Element, old(tvec(z)), svec(6, 0, old(*c0), 1, old(*c1), 4, old(*c4)))
+//@ ensures[result] result == z
+//@ modifies z
+//@ end
+
+//@ func E6.MulBy01
+//@ layer ring fp.Element
+//@ ensures[value] tvec(z) == t12mul(NR_Element, old(tvec(z)), svec(6, 0, old(*c0), 1, old(*c1), 4, 1))
+//@ ensures[result] result == z
+//@ modifies z
+//@ end
+
+//@ func Mul01By01
+//@ layer ring fp.Element
+//@ ensures[value] svec(6, 0, result[0], 1, result[1], 2, result[2], 4, result[3], 5, result[4]) == t12mul(NR_Element, svec(6, 0, *c0, 1, *c1, 4, 1), svec(6, 0, *d0, 1, *d1, 4, 1))
+//@ modifies nothing
+//@ end
+
+//@ func Mul014By014
+//@ layer ring fp.Element
+//@ ensures[value] svec(6, 0, result[0], 1, result[1], 2, result[2], 4, result[3], 5, result[4]) == t12mul(NR_Element, svec(6, 0, *c0, 1, *c1, 4, *c4), svec(6, 0, *d0, 1, *d1, 4, *d4))
+//@ modifies nothing
+//@ end
+
+//@ func E6.MulBy01245
+//@ layer ring fp.Element
+//@ ensures[value] tvec(z) == t12mul(NR_Element, old(tvec(z)), svec(6, 0, old(x[0]), 1, old(x[1]), 2, old(x[2]), 4, old(x[3]), 5, old(x[4])))
+//@ ensures[result] result == z
+//@ modifies z
+//@ end
